@@ -452,7 +452,7 @@ func judgeC13(c c13Case) (v core.Verdict) {
 
 func TestC13(t *testing.T) {
 	core.Run(t, "C13",
-		"try statements whose body nests 0-4 of {range rebinding '.', range with := / = loop variables, if with declaration, block with parameters and context, yield with content, yielded block body, include with context, block yielded with a context by a Go helper (Runtime.YieldBlock), inner try (caught / failing in its catch)} around a failing action of any of 30 kinds incl. a Go runtime error in a user function and output produced by calls inside conditions / assignments (or none: success case), also as the only statement of a body without any text, with no catch / catch / catch with variable (whose body may fail too), executed with data or without any (a fifth of the cases), placed at top level, in a block invoked with content, in a range or in an include; probes after the statement print '.', variables, isset of every name declared inside, yield content and more text; oracle = MiniJet reference interpreter with transactional try; non-trivial = a failure below >=1 construct",
+		"try statements whose body nests 0-4 of {range rebinding '.', range with := / = loop variables, if with declaration, block with parameters and context, yield with content, yielded block body, include with context, block yielded with a context by a Go helper (Runtime.YieldBlock), inner try (caught / failing in its catch)} around a failing action of any of 30 kinds incl. a Go runtime error in a user function and output produced by calls inside conditions / assignments (or none: success case), also as the only statement of a body without any text, with no catch / catch / catch with variable (whose body may fail too), executed with data or without any (a fifth of the cases), placed at top level, in a block invoked with content, in a range or in an include; probes after the statement print '.', variables, isset of every name declared inside, yield content and more text; catch handlers that yield the content of the block they stand in or read the error variable only through an included template; oracle = MiniJet reference interpreter with transactional try, plus a second execution into a destination that refuses, once, the Write handing over a finished try body (an error, and a prefix of the output); non-trivial = a failure below >=1 construct",
 		genC13, judgeC13)
 }
 
